@@ -134,3 +134,21 @@ C[LF + "linear_fit_transform_points#def"] = dict(
     requires=["len(points) >= 1", "vertical == False", "points[0][0] != points[len(points)-1][0]"],
     ensures=["len(result) == len(points)", "result[0] == points[0][1] and result[len(points)-1] == points[len(points)-1][1]", _LINEP],
 )
+
+
+# ------------------------------------------------------------------ consequences of the definitions ("hence ..." clause of the statement):
+# lemmas over the postconditions of the metrics (the formulas above), for all vectors
+LEMMAS = {}
+_SW = lambda f: f.replace("y_hat", "Y_H").replace("y[", "y_hat[").replace("Y_H", "y")        # the formula with y and y_hat exchanged
+_SUMOF = {"rmse": "Sum(0, len(y), lambda k: sq(y[k] - y_hat[k]))", "residuals": FORMULA["residuals"],
+          "smape": "Sum(0, len(y), lambda k: 2.0 * absr(y_hat[k] - y[k]) / (absr(y[k]) + absr(y_hat[k]) + eps))"}
+for _n in ("rmse", "residuals", "smape"):
+    _v = {"y": V, "y_hat": V, "a": "Real", "b": "Real"}
+    if "eps" in FORMULA[_n]:
+        _v["eps"] = "Real"
+    LEMMAS[_n + "_symmetric"] = dict(
+        context="kneeliverse.metrics." + _n, owner="C16", mode="R", vars=_v,
+        hyps=REQ + (["eps > 0"] if "eps" in FORMULA[_n] else []) + ["a == %s" % FORMULA[_n], "b == %s" % _SW(FORMULA[_n]).replace("len(y_hat)", "len(y)")],
+        steps=["%s == %s" % (_SUMOF[_n], _SW(_SUMOF[_n]).replace("len(y_hat)", "len(y)"))],
+        goal=["a == b"],
+    )
